@@ -1,0 +1,88 @@
+//! Verification hooks. Compiled only with `--cfg chess_verif`; with the flag off this
+//! module does not exist and none of the call sites below are compiled.
+//!
+//! * an optional process-wide observer that is told about the begin/end of every
+//!   root-move search task and about every read/write of the shared search-result
+//!   cache (the observer may block the calling thread, which is how a test harness
+//!   serialises the tasks and chooses the interleaving);
+//! * an optional override of the move-generator LRU capacity (the default of 10^8
+//!   entries makes `MoveGenerator::new()` allocate and clear >100 MB).
+
+use std::sync::atomic::{AtomicBool, AtomicUsize, Ordering};
+use std::sync::{Arc, RwLock};
+
+#[derive(Debug, Clone, PartialEq, Eq)]
+pub enum SearchEvent {
+    /// Emitted by the root of `alpha_beta_search` before the parallel iterator starts.
+    SearchBegin { tasks: usize },
+    /// Emitted by a root-move task once its local board/generator/context exist.
+    TaskBegin { index: usize },
+    /// Emitted when a root-move task finishes (also on unwind).
+    TaskEnd { index: usize },
+    /// Emitted just before the shared result cache is probed.
+    CacheRead {
+        hash: u64,
+        alpha: i16,
+        beta: i16,
+        depth: u8,
+        maximizing: bool,
+    },
+    /// Emitted just after the probe, with its outcome.
+    CacheReadDone { hit: Option<i16> },
+    /// Emitted just before the shared result cache is written.
+    CacheWrite {
+        hash: u64,
+        alpha: i16,
+        beta: i16,
+        depth: u8,
+        maximizing: bool,
+        value: i16,
+    },
+}
+
+pub trait SearchObserver: Send + Sync {
+    fn on_event(&self, event: &SearchEvent);
+}
+
+static OBSERVER_INSTALLED: AtomicBool = AtomicBool::new(false);
+static OBSERVER: RwLock<Option<Arc<dyn SearchObserver>>> = RwLock::new(None);
+
+pub fn set_search_observer(observer: Option<Arc<dyn SearchObserver>>) {
+    let mut slot = OBSERVER.write().unwrap();
+    OBSERVER_INSTALLED.store(observer.is_some(), Ordering::SeqCst);
+    *slot = observer;
+}
+
+#[inline]
+pub fn emit(event: SearchEvent) {
+    if !OBSERVER_INSTALLED.load(Ordering::Relaxed) {
+        return;
+    }
+    let observer = OBSERVER.read().unwrap().clone();
+    if let Some(observer) = observer {
+        observer.on_event(&event);
+    }
+}
+
+/// Emits `TaskEnd` when dropped.
+pub struct TaskGuard(pub usize);
+
+impl Drop for TaskGuard {
+    fn drop(&mut self) {
+        emit(SearchEvent::TaskEnd { index: self.0 });
+    }
+}
+
+// 0 means "no override".
+static MOVE_CACHE_CAPACITY: AtomicUsize = AtomicUsize::new(0);
+
+pub fn set_move_cache_capacity(capacity: Option<usize>) {
+    MOVE_CACHE_CAPACITY.store(capacity.unwrap_or(0), Ordering::SeqCst);
+}
+
+pub fn move_cache_capacity() -> Option<usize> {
+    match MOVE_CACHE_CAPACITY.load(Ordering::Relaxed) {
+        0 => None,
+        n => Some(n),
+    }
+}
